@@ -61,6 +61,90 @@ proof {
     Fn(F_PAT, 'Lookahead', 'is_positive', ret='r', props=P + ['C04'], spec='ensures r == self.is_positive'),
 ]
 
+
+# ---- the generic constructors, MONOMORPHISED (rule E9) at the collection type the crate itself and every example use: P := Vec<..>, T := Vec<(usize, usize)>.
+# For an arbitrary IntoIterator nothing can be stated (its items are whatever the caller's iterator yields; it need not even terminate).
+PUSH_LOOP = '''{
+    let mut __v: Vec<%(ety)s> = Vec::new();
+    let mut __it = %(src)s.into_iter();
+    let ghost __all = __it.remaining();
+    loop
+        invariant
+            __it.obeys_prophetic_iter_laws(), __it.decrease() is Some,
+            __all.len() == __v@.len() + __it.remaining().len(),
+            forall|q: int| 0 <= q < __it.remaining().len() ==> __it.remaining()[q] == __all[__v@.len() + q],
+            forall|k: int| 0 <= k < __v@.len() ==> %(inv)s,
+            %(xinv)s
+        ensures __it.remaining().len() == 0
+        decreases __it.decrease()->0
+    {
+        let Some(%(pat)s) = __it.next() else { break };
+        %(pre)s
+        __v.push(%(item)s);
+        %(post)s
+    }
+    __v
+}'''
+
+sm_new = Fn(F_SM, 'ScannerMode', 'new', ret='r', props=P + ['C06'],
+    sig_replace=[('new < P , T >', 'new'), ('patterns : P', 'patterns: Vec<Pattern>'), ('mode_transitions : T', 'mode_transitions: Vec<(usize, usize)>'),
+                 ('where P : IntoIterator < Item = Pattern > , T : IntoIterator < Item = ( usize , usize ) > ,', '')],
+    spec='''
+ensures
+    r.name@ == name@, r.patterns@ == patterns@,
+    r.transitions@.len() == mode_transitions@.len(),
+    // token type numbers are stored modulo 2^32 (TerminalIDBase), target modes as given, order kept
+    forall|k: int| 0 <= k < mode_transitions@.len() ==> #[trigger] r.transitions@[k] == (TerminalID(mode_transitions@[k].0 as u32), ScannerModeID(mode_transitions@[k].1)),
+''',
+    edits=[
+        Ins('body_start', None, 'let ghost __pats0 = patterns@; let ghost __mt0 = mode_transitions@;'),
+        Replace('E11', 'let patterns = patterns.into_iter().collect::<Vec<_>>();',
+                'let patterns = ' + PUSH_LOOP % dict(ety='Pattern', src='patterns', inv='#[trigger] __v@[k] == __all[k]', xinv='', pat='__x', pre='', item='__x', post='') + ';\nproof { assert(patterns@ =~= __pats0); }',
+                why='into_iter().collect::<Vec<_>>() is the push loop over the items in order (std definition of FromIterator for Vec)'),
+        Replace('E11', 'let transitions = mode_transitions.into_iter().map(|(t, m)| $body).collect::<Vec<_>>();',
+                'let transitions = ' + PUSH_LOOP % dict(ety='(TerminalID, ScannerModeID)', src='mode_transitions',
+                    inv='#[trigger] __v@[k] == (TerminalID(__all[k].0 as u32), ScannerModeID(__all[k].1))', xinv='', pat='(t, m)', pre='', item='$body', post='') + ';',
+                why='into_iter().map(f).collect::<Vec<_>>() is the push loop applying f to the items in order; closure body verbatim'),
+    ])
+
+ssb_new = Fn(F_SB, 'SimpleScannerBuilder', 'new', ret='r', props=P,
+    sig_replace=[('new < P >', 'new'), ('patterns : P', 'patterns: Vec<Pattern>'), ('where P : IntoIterator < Item = Pattern > ,', '')],
+    spec='''
+ensures r.scanner_mode.name@ == "INITIAL"@, r.scanner_mode.patterns@ == patterns@, r.scanner_mode.transitions@.len() == 0
+''')
+
+add_patterns = Fn(F_SB, 'ScannerBuilder', 'add_patterns', ret='r', props=P,
+    sig_replace=[('add_patterns < P , S >', 'add_patterns<S>'), ('patterns : P', 'patterns: Vec<S>'), ('where P : IntoIterator < Item = S > , S : AsRef < str > ,', 'where S: AsRef<str>,')],
+    spec='''
+ensures
+    // C01: with add_patterns the token type is the pattern's index; one mode named INITIAL, no lookaheads, no transitions
+    r.scanner_mode.name@ == "INITIAL"@, r.scanner_mode.transitions@.len() == 0,
+    r.scanner_mode.patterns@.len() == patterns@.len(),
+    forall|i: int| 0 <= i < patterns@.len() ==> (#[trigger] r.scanner_mode.patterns@[i]).token_type == i && r.scanner_mode.patterns@[i].lookahead is None,
+''',
+    edits=[
+        Replace('E11', 'let patterns = patterns.into_iter().enumerate().map(|(i, pattern)| $body).collect::<Vec<_>>();',
+                'let ghost __n0 = patterns@.len();\nlet mut __i: usize = 0;\nlet patterns = ' + PUSH_LOOP % dict(ety='Pattern', src='patterns',
+                    inv='(#[trigger] __v@[k]).token_type == k && __v@[k].lookahead is None', xinv='__i == __v@.len(),', pat='pattern',
+                    pre='let i = __i;', item='$body', post='proof { axiom_vec_len_bound(&__v); }\n        __i += 1;') + ';\nproof { assert(patterns@.len() == __n0); }',
+                why='into_iter().enumerate().map(f).collect::<Vec<_>>() is the push loop with a counter started at 0 and incremented after every item (std definition of Enumerate); closure body verbatim'),
+    ])
+
+items += [
+    Struct(F_SB, 'SimpleScannerBuilder', derive=[]),
+    Raw('''
+// TRUSTED: a Vec holds at most usize::MAX elements (Vec::len returns usize)
+pub axiom fn axiom_vec_len_bound<T>(v: &Vec<T>)
+    ensures v@.len() <= usize::MAX;
+#[verifier::external_trait_specification]
+pub trait ExAsRef<T: core::marker::PointeeSized>: core::marker::PointeeSized {
+    type ExternalTraitSpecificationFor: core::convert::AsRef<T>;
+    fn as_ref(&self) -> &T;
+}
+''', label='trusted: Vec length bound; AsRef declared (no contract)'),
+    sm_new, ssb_new, add_patterns,
+]
+
 for _f in items:
     if isinstance(_f, Fn) and _f.qual == 'ScannerBuilder::build_uncached':
         _f.extra_generics = ['M: ' + BOUND]  # the return type Scanner became Scanner<M> (rule E2)
